@@ -627,6 +627,7 @@ package ro
 //@   iteration ensures count(source.SubscribeWithContext) == 1 && count(attempt.Wait) == 1 && before(source.SubscribeWithContext, attempt.Wait) && arg(source.SubscribeWithContext, 0) == subscriberCtx
 //@   iteration ensures before(subscriptions.AddUnsubscribable, attempt.Wait)
 //@   iteration ensures lastErr != nil && shouldRetry
+//@   iteration ensures count(chpoll) == 1 && before(chpoll, source.SubscribeWithContext) && arg(chpoll, 0) == res(subscriberCtx.Done)
 
 //@ operator RepeatWith
 //@   props C15 C09
@@ -1214,3 +1215,19 @@ package ro
 //@   on complete@source(ctx) : emits Next(ctx, buffer), Complete(ctx)
 //@   on next@tick(ctx, value) : emits Next(ctx, buffer)
 //@   on complete@tick(ctx) : emits Next(ctx, buffer), Complete(ctx)
+
+//@ func ThrowOnContextCancel$1$1
+//@   note the subscribe function of ThrowOnContextCancel: an already cancelled context fails at once; otherwise a watcher goroutine is started for every kind of context (with or without a deadline), then the source is subscribed
+//@   props C14 C09
+//@   binds subscriberCtx destination source
+//@   track destination.* spawn.ANY source.SubscribeWithContext
+//@   ensures [an-already-cancelled-context-fails-at-once|C14] res(subscriberCtx.Err) != nil ==> trace(destination.ErrorWithContext(subscriberCtx, _))
+//@   ensures [the-context-is-watched-then-the-source-subscribed|C14] res(subscriberCtx.Err) == nil ==> trace(spawn.ANY, source.SubscribeWithContext(subscriberCtx, _))
+
+//@ func ThrowOnContextCancel$1$1$1
+//@   note the watcher: one blocking wait on the context and on the teardown's done channel; cancellation becomes an Error
+//@   props C14
+//@   binds destination
+//@   track destination.* chselect chpoll chrecv.ANY
+//@   ensures [waits-once-for-cancellation-or-teardown|C14] count(chselect) == 1 && count(chpoll) == 0 && count(chrecv.ANY) == 0
+//@   ensures [cancellation-becomes-an-error-teardown-a-completion|C14] count(destination.ErrorWithContext) + count(destination.CompleteWithContext) == 1
